@@ -22,6 +22,90 @@ GLOBAL_FOLDS = {
 }
 
 
+# ---------------------------------------------------------------------------------------------------------
+# Python's ``ast`` nodes as opaque objects: the class of a node is a family of free predicates (mutually
+# exclusive leaf classes, ast.expr / ast.stmt as unions), fields are uninterpreted functions of the node.
+AST_EXPR = ["Call", "Name", "Constant", "List", "Tuple", "Attribute", "Subscript", "BinOp", "UnaryOp", "BoolOp",
+            "Compare", "Lambda", "JoinedStr", "FormattedValue", "Dict", "Set", "ListComp", "GeneratorExp", "IfExp",
+            "Starred", "Slice", "Index", "ExtSlice", "Num", "Str", "NameConstant", "Ellipsis", "Bytes"]
+AST_STMT = ["AnnAssign", "Assign", "FunctionDef", "ClassDef", "Return", "Expr", "Pass", "If", "For", "While",
+            "Import", "ImportFrom", "Assert", "Raise", "AugAssign", "With", "Try", "Delete", "Global", "Nonlocal"]
+AST_OTHER = ["keyword", "arg", "arguments", "Module", "alias", "comprehension", "Load", "Store",
+             "Lt", "LtE", "Gt", "GtE", "Eq", "NotEq", "In", "NotIn", "Is", "IsNot", "And", "Or", "Not", "Add", "Sub",
+             "USub", "UAdd", "Mult", "Div", "Mod", "Pow"]
+AST_FIELD_KIND = {
+    "func": "node", "args": "list", "keywords": "list", "elts": "list", "targets": "list", "target": "node",
+    "annotation": "node", "body": "list", "orelse": "list", "decorator_list": "list", "bases": "list",
+    "slice": "node", "left": "node", "right": "node", "ops": "list", "comparators": "list", "operand": "node",
+    "op": "node", "values": "list", "test": "node", "names": "list", "ctx": "node", "keys": "list",
+    "generators": "list", "elt": "node", "iter": "node", "ifs": "list", "returns": "optnode", "exc": "optnode",
+    "msg": "optnode", "lower": "optnode", "upper": "optnode", "step": "optnode", "format_spec": "optnode",
+    "id": "str", "attr": "str", "name": "str", "module": "optstr", "asname": "optstr", "arg": "optstr",
+    "lineno": "int", "col_offset": "int", "end_lineno": "int", "end_col_offset": "int", "level": "int",
+    "conversion": "int", "kwarg": "optnode", "vararg": "optnode", "defaults": "list", "kwonlyargs": "list",
+    "kw_defaults": "list", "posonlyargs": "list", "simple": "int", "type_comment": "optstr",
+}
+
+
+def ast_is(it: Any, v: VExt, cls: str) -> Any:
+    if cls in ("AST",):
+        return z3.BoolVal(True)
+    if cls == "expr":
+        return z3.Or(*[ast_is(it, v, c) for c in AST_EXPR])
+    if cls == "stmt":
+        return z3.Or(*[ast_is(it, v, c) for c in AST_STMT])
+    allc = AST_EXPR + AST_STMT + AST_OTHER
+    tag = z3.Function("ast_class", z3.IntSort(), z3.IntSort())(v.ident)
+    if cls not in allc:
+        return z3.Bool(it.path.fresh_name("$ast_is_" + cls))
+    return tag == allc.index(cls)
+
+
+def ast_attr(it: Any, base: VExt, name: str, node: Any, fr: Any) -> V:
+    kind = AST_FIELD_KIND.get(name)
+    if name == "value":
+        is_const = ast_is(it, base, "Constant")
+        if it.path._check(z3.Not(is_const)) == z3.unsat:
+            k = z3.Function("ast_const_kind", z3.IntSort(), z3.IntSort())(base.ident)
+            order = ["bool", "int", "float", "str", "bytes"]
+            it.path.add_fact(z3.And(k >= 0, k < len(order)))
+            from pyvc.values import VPrimUnion, VFloat
+            alts = {
+                "bool": VBool(z3.Function("ast_const_bool", z3.IntSort(), z3.BoolSort())(base.ident)),
+                "int": VInt(z3.Function("ast_const_int", z3.IntSort(), z3.IntSort())(base.ident)),
+                "float": VFloat(z3.Function("ast_const_float", z3.IntSort(), z3.IntSort())(base.ident)),
+                "str": VStr([z3.Function("ast_const_str", z3.IntSort(), SEQ)(base.ident)]),
+                "bytes": VStr([z3.Function("ast_const_bytes", z3.IntSort(), SEQ)(base.ident)], is_bytes=True),
+            }
+            return VOpt(z3.Function("ast_const_none", z3.IntSort(), z3.BoolSort())(base.ident),
+                        VPrimUnion(k, order, alts))
+        # AnnAssign.value / Return.value are optional, Attribute/keyword/Expr.value are not
+        opt = z3.And(z3.Function("ast_value_none", z3.IntSort(), z3.BoolSort())(base.ident),
+                     z3.Or(ast_is(it, base, "AnnAssign"), ast_is(it, base, "Return")))
+        return VOpt(opt, VExt("ast.AST", z3.Function("ast_value", z3.IntSort(), z3.IntSort())(base.ident)))
+    if kind is None:
+        raise Unsupported(f"ast attribute .{name}")
+    fid = lambda suffix="": "ast_" + name + suffix
+    if kind == "node":
+        return VExt("ast.AST", z3.Function(fid(), z3.IntSort(), z3.IntSort())(base.ident))
+    if kind == "optnode":
+        return VOpt(z3.Function(fid("_none"), z3.IntSort(), z3.BoolSort())(base.ident),
+                    VExt("ast.AST", z3.Function(fid(), z3.IntSort(), z3.IntSort())(base.ident)))
+    if kind == "list":
+        n = z3.Function(fid("_len"), z3.IntSort(), z3.IntSort())(base.ident)
+        it.path.add_fact(n >= 0)
+        el = z3.Function(fid("_el"), z3.IntSort(), z3.IntSort(), z3.IntSort())
+        return VList([], base_len=n, base_get=lambda i: VExt("ast.AST", el(base.ident, i)))
+    if kind == "str":
+        return VStr([z3.Function(fid(), z3.IntSort(), SEQ)(base.ident)])
+    if kind == "optstr":
+        return VOpt(z3.Function(fid("_none"), z3.IntSort(), z3.BoolSort())(base.ident),
+                    VStr([z3.Function(fid(), z3.IntSort(), SEQ)(base.ident)]))
+    if kind == "int":
+        return VInt(z3.Function(fid(), z3.IntSort(), z3.IntSort())(base.ident))
+    raise Unsupported(f"ast attribute kind {kind}")
+
+
 def fs_log(it: Any) -> List[Any]:
     return it.path.cache.setdefault(("fs-log",), [])
 
@@ -75,9 +159,34 @@ def install(engine: Any) -> None:
     engine.global_folds.update(GLOBAL_FOLDS)
     em = engine.ext_methods
 
+    def model_pairwise(it, env, node, fr):
+        """common.pairwise(xs) = [(xs[0], xs[1]), (xs[1], xs[2]), ...]  (itertools.tee + zip)"""
+        src = env["iterable"]
+        if isinstance(src, VList) and not src.is_concrete():
+            n = src.length()
+            ln = z3.If(n > 0, n - 1, 0)
+            return VList([], base_len=ln, base_get=lambda i: VTuple([it.list_get(src, i, node, fr),
+                                                                     it.list_get(src, i + 1, node, fr)]))
+        items = it.concrete_items(src)
+        return VList([VTuple([a, b]) for a, b in zip(items, items[1:])])
+
+    engine.func_models["aas_core_codegen.common:pairwise"] = model_pairwise
+
+    engine.ast_model = (ast_is, ast_attr)
+
+    def bi_ast_dump(self, args, kwargs, node, fr):
+        return self.opaque_str("ast.dump")
+
+    Interp.bi_ast_dump = bi_ast_dump
+
     # ---- asttokens
     def get_text(it, base, args, kwargs, node, fr):
         f = z3.Function("asttokens_text", z3.IntSort(), SEQ)
+        n = args[0] if args else kwargs.get("node")
+        tree = z3.Function("asttokens_tree", z3.IntSort(), z3.IntSort())(base.ident)
+        if isinstance(n, VExt) and not z3.eq(z3.simplify(n.ident), z3.simplify(tree)):
+            g = z3.Function("asttokens_node_text", z3.IntSort(), z3.IntSort(), SEQ)
+            return VStr([g(base.ident, n.ident)])
         return VStr([f(base.ident)])
 
     def get_text_range(it, base, args, kwargs, node, fr):
